@@ -1018,6 +1018,7 @@ func checkC04(w *World, r *Report) {
 	r.Rule("C04.fraction", "P6", "the fraction used for a destination is that destination's own Share (resp. the sub-distributor's BurnShare), applied to the sub-distributor's total inflow, and credited to that same destination", 4)
 	r.Rule("C04.inflow", "P6", "= C03.inflow: the inflow of which every destination receives its fraction is the main account's balance minus the sum of the remains of the full, current state list (an inflow computed from a stale sum or balance under- or overstates what every destination of that sub-distributor gets)", 3)
 	r.Rule("C04.carry", "P5", "= C14.success: what a destination is owed stays in its state until the transfer that pays it succeeded: the state is reduced only on the success edge of the bank call, by exactly what was sent (a state emptied before a transfer that then fails forgets the destination's share and hands it to the others as fresh inflow)", 9)
+	r.Rule("C04.threshold", "P7", "a destination is paid as soon as one whole unit is due: the predicate that decides whether a state is paid out this block answers yes exactly when some coin's amount is at least one (ordering table over the coin amount and the constant one: below => never yes, equal and above => yes)", 3)
 	r.Rule("C04.order", "P4,P6", "= C03.order: the outcome must not depend on the order in which sources are listed", 1)
 	if !ro.checkFloors(r) {
 		return
@@ -1369,6 +1370,7 @@ func checkC04(w *World, r *Report) {
 	orderRule(w, r, "C04.order", a)
 	shareRule(w, r, checkC03, "C03.inflow", "C04.inflow", nil)
 	successRule(w, r, "C04.carry")
+	payoutThresholdRule(w, r, "C04.threshold")
 	conserveRule(w, r, "C04.conserve", a)
 }
 
@@ -2074,4 +2076,66 @@ func flatArgs(s *Site) []ssa.Value {
 		}
 	}
 	return out
+}
+
+// payoutThresholdRule: cumulative receipts stay within one base unit of share x inflow only if a state is paid out as
+// soon as its remains reach one whole unit. The pay-out predicate (the bool function of the distributor's keeper that
+// the end-of-block loop asks about a state's remains) is explored under amount < 1, amount == 1, amount > 1.
+func payoutThresholdRule(w *World, r *Report, rule string) {
+	fn := w.Func("x/cfedistributor/keeper.checkIfAnyCoinIsGTE1")
+	if fn == nil {
+		r.Unk("infra.anchor", "x/cfedistributor/keeper.checkIfAnyCoinIsGTE1", "", "anchor not found")
+		return
+	}
+	isOne := func(v ssa.Value) bool {
+		c, ok := v.(*ssa.Call)
+		if !ok {
+			return false
+		}
+		n := callName(c.Common())
+		switch {
+		case strings.HasSuffix(n, "types.OneDec"):
+			return true
+		case strings.HasSuffix(n, "types.NewDec"):
+			k, ok := stripConv(c.Common().Args[0]).(*ssa.Const)
+			return ok && k.Value != nil && k.Value.ExactString() == "1"
+		}
+		return false
+	}
+	term := func(v ssa.Value) string {
+		switch {
+		case isOne(v):
+			return "one"
+		case loadOfField(v, "Amount", nil):
+			return "amount"
+		}
+		if f, ok := v.(*ssa.Field); ok {
+			if st, isSt := f.X.Type().Underlying().(*types.Struct); isSt && st.Field(f.Field).Name() == "Amount" {
+				return "amount"
+			}
+		}
+		return ""
+	}
+	for s := -1; s <= 1; s++ {
+		live := ReachUnder(fn, OrderEval(term, twoTermCmp("amount", "one", s), nil))
+		yes, no := false, false
+		for _, v := range live.LiveReturns(fn, 0) {
+			if b, ok := constBool(v); ok {
+				if b {
+					yes = true
+				} else {
+					no = true
+				}
+			} else {
+				yes, no = true, true
+			}
+		}
+		_ = no
+		construct := fmt.Sprintf("pay-out predicate: coin amount %s one", orderNames[s])
+		if s < 0 {
+			r.Check(!yes, rule, construct, w.Pos(fn.Pos()), "never answers yes", "a state can be paid out although less than one unit is due, or the predicate is not a comparison of the coin amount with one")
+		} else {
+			r.Check(yes, rule, construct, w.Pos(fn.Pos()), "answers yes", "a state to which a whole unit is due is not paid out this block: the destination lags behind its share by more than one unit")
+		}
+	}
 }
